@@ -11,6 +11,9 @@ pub struct Opts {
     pub format: bool,
     pub sig: bool,
     pub ansi: bool,
+    /// `Options::color` (deprecated, unused by the library today)
+    #[serde(default)]
+    pub color: bool,
 }
 
 impl Opts {
@@ -20,6 +23,7 @@ impl Opts {
             format: false,
             sig: false,
             ansi: false,
+            color: false,
         }
     }
     fn to_options(&self) -> Result<prqlc::Options, prqlc::ErrorMessages> {
@@ -28,7 +32,7 @@ impl Opts {
             format: self.format,
             target,
             signature_comment: self.sig,
-            color: false,
+            color: self.color,
             display: if self.ansi {
                 prqlc::DisplayOptions::AnsiColor
             } else {
